@@ -11,6 +11,10 @@ CLAIMED = {
          "DESIGN.md 4 C13"),
 }
 
+CLAIMED["C20"] = ("Every method of the three allocators (MemPool, AlignedAllocator, stdAllocator) and the constructors are verified against one interface contract: Malloc length/capacity, Append/AppendString/Realloc length and both halves of the content (quantified over all positions), memory freshness (the returned backing array is new to the caller, or the old one grown in place), handle typestate, frame (nothing else changes), bucket-capacity invariant of the aligned pools, and panic-freedom (index, slice bounds, nil, type assertion, make).",
+  "Assumed: sync.Pool contract (Get returns New() or an element previously Put; to a program that never uses a buffer after Free - property C11 - it is indistinguishable from a new one); the alignedIndexes table and pool capacities established by init() (axioms, init's loops are not verified); AlignedAllocator.AppendString's unsafe cast (trusted); debugger statistics (bodies not verified); object invariants of the allocators are established by the constructors (proved) and assumed at method entry; concurrent use relies on sync.Pool being linearizable.",
+  "DESIGN.md 4 C20")
+
 NA = {
  "C18": "termination of Stop/Shutdown and release of goroutines/descriptors for all histories is liveness + whole-process resource state; no contract within reach of a per-function deductive verifier decides it (DESIGN.md 4 C18)",
 }
